@@ -2182,6 +2182,21 @@ func (c *Conn) handleRecordContent(
 
 			return false, packetOutcome{}, nil
 		}
+		if prepared.header.Epoch == 0 {
+			for _, number := range content.Records {
+				// An epoch 0 ACK is unprotected: anyone can send it. It can only answer the plaintext
+				// hellos (an ACK is never sent in an earlier epoch than the records it acknowledges
+				// [RFC 9147 Section 7]), so it must not acknowledge a protected record; one completed
+				// a pending KeyUpdate on behalf of a peer that never saw it.
+				if number.Epoch != 0 {
+					c.log.Debugf("discarded unprotected ACK record acknowledging a protected record (epoch: %d, seq: %d)",
+						number.Epoch, number.SequenceNumber,
+					)
+
+					return false, packetOutcome{}, nil
+				}
+			}
+		}
 		isLatestSeqNum := prepared.markPacketAsValid()
 
 		return isLatestSeqNum, packetOutcome{
